@@ -18,6 +18,13 @@ type Engine interface {
 	Run(c *Choices, x *Ctx) *Violation
 }
 
+// ScenarioReplayer is implemented by engines that can re-execute an explicit
+// scenario record (used for the canonical replays of known findings, which
+// must not depend on the generators).
+type ScenarioReplayer interface {
+	ReplayScenario(raw []byte, x *Ctx) (*Violation, error)
+}
+
 type EngineFunc func(c *Choices, x *Ctx) *Violation
 
 func (f EngineFunc) Run(c *Choices, x *Ctx) *Violation { return f(c, x) }
